@@ -883,10 +883,15 @@ def _multitenant_sender(repo: Repo, ctx) -> None:
            f'call_for_client{ps[:4]} + *args vs header (client_id, '
            f'pickled_schema, invalidation, msg, methname, dbname)', cfc.loc,
            sample=ps[:4])
-    txt = norm(cfc.node)
-    ok = '__sync__(client_id, pickled_schema, invalidation)' in txt and \
-        norm(cfc.node.body[0]) == \
-        '__sync__(client_id, pickled_schema, invalidation)'
+    # the sync call (with the first three parameters, in order) dominates
+    # every other call in the function
+    gc_ = CFG(cfc.node)
+    want = f'__sync__({ps[0]}, {ps[1]}, {ps[2]})' if len(ps) >= 3 else ''
+    syn = [n.id for n in gc_.nodes if n.kind == 'stmt' and n.ast is not None
+           and norm(n.ast) == want]
+    others = [n.id for n in gc_.nodes if n.id not in syn
+              and gc_.node_calls(n)]
+    ok = bool(syn) and all(gc_.always_before(o, syn) for o in others)
     ctx.ob('C17.R1', 'multitenant_worker.call_for_client:sync-first', ok,
            'call_for_client does not sync (client_id, pickled_schema, '
            'invalidation) before anything else', cfc.loc,
